@@ -175,6 +175,7 @@ def runFrame (w : List String) (impl : String) : String :=
         let body : Except String (Bytes × String) :=
           if !compressed then .ok (h.body, "")
           else if comp == "n" then .error "err ext.nocompression"
+          else if comp == "l" ∧ !lz4Guard h.body then .error "err ext.lz4"
           else match implW with
             | _ :: z :: rest =>
               if z.startsWith "z=" then
